@@ -253,6 +253,13 @@ class Signal( NamedObject, Connectable ):
     if not issubclass( s._dsl.Type, Bits ):
       raise InvalidConnectionError( "We don't allow slicing on non-Bits signals." )
 
+    # An index / a bound may be given as a Bits constant
+    if isinstance( idx, Bits ):
+      idx = int( idx )
+    elif isinstance( idx, slice ) and ( isinstance( idx.start, Bits ) or isinstance( idx.stop, Bits ) ):
+      idx = slice( None if idx.start is None else int( idx.start ),
+                   None if idx.stop  is None else int( idx.stop ), idx.step )
+
     # Turn index into a slice
     if isinstance( idx, int ):
       start, stop = idx, idx + 1
